@@ -201,6 +201,16 @@ def extract_decode(body):
                             srcs.append(("other", rv["r"]))
                     else:
                         srcs.append(("other", "partial write"))
+                # values merged into the field through a `&mut field` call (e.g. Vec::extend / push)
+                for (wbb, wt) in tr.mut_writers().get(np.l, []):
+                    hit = False
+                    for a in wt["args"]:
+                        r3 = comp_of_operand(body, tr, a)
+                        if r3 is not None:
+                            srcs.append(("deser", r3[0], r3[1]))
+                            hit = True
+                    if not hit:
+                        srcs.append(("other", "mutated by %s" % callee(wt)))
         info.field_sources[fname] = srcs
         for s_ in srcs:
             if s_[0] == "deser" and s_[2] == 0 and s_[1] in by_bb:
